@@ -555,13 +555,48 @@ func runC12(rc *RunCtx) {
 			return
 		}
 	}
-	// (d) swept deterministically: neither team/ token obtains anything from a
+	// policy names are resolved inside the token's own namespace whatever they
+	// look like: (1) the root namespace gets an all-powerful policy whose NAME is
+	// "team/tp" - the path of namespace team/ followed by the name of team/'s own
+	// policy - and it is the one loaded last; (2) a token of team/ names a policy
+	// "../<uuid of the root namespace>/p", a name that no policy of team/ has
+	// and that, read as a path, climbs to the root namespace's policy "p"
+	sweepToks := []string{teamTok, teamRootTok}
+	sweepNames := []string{"policy tp", "root policy"}
+	if tp.Pick(2) == 0 {
+		all := `path "*" { capabilities = ["create","read","update","delete","list","sudo"] }`
+		if err := h.Policy("team/tp", all); err == nil {
+			h.RootRead("sys/policies/acl/team/tp")
+			h.Do("warm", Req{Op: logical.ReadOperation, Path: "app/data/probe", Token: rootTok})
+			s.Probe("colliding_policy_name_in_parent_namespace")
+		}
+		evil := "../00000000-0000-0000-0000-000000000000/p" // (namespace.RootNamespaceUUID)
+		if r, err := rootDo("team/", "auth/token/create", logical.UpdateOperation, map[string]any{"policies": []string{evil}, "no_default_policy": true, "ttl": "1h"}); err == nil && r != nil && r.Auth != nil {
+			sweepToks = append(sweepToks, r.Auth.ClientToken)
+			sweepNames = append(sweepNames, "policy named "+evil)
+			s.Probe("token_with_climbing_policy_name")
+			// such a token holds no policy at all: nothing inside team/ either
+			for _, m := range mounts {
+				if m.kind == "rec" && strings.HasPrefix(m.ns, "team/") {
+					before := len(rec.Snapshot())
+					h.Do("neg", Req{Op: logical.ReadOperation, Path: m.path + "data/probe", Token: r.Auth.ClientToken, NS: m.ns})
+					for _, e := range rec.Snapshot()[before:] {
+						if e.Kind == "handler" {
+							viol("token-authorised-outside-its-namespace", map[string]any{"target_ns": m.ns, "via": "policy name resolved outside the token's namespace"}, "a token of team/ whose only policy is named %q (no such policy in team/) reached a handler of %s%s", evil, m.ns, m.path)
+							return
+						}
+					}
+				}
+			}
+		}
+	}
+	// (d) swept deterministically: no team/ token obtains anything from a
 	// mount of the root namespace, other/ or team2/
 	for _, m := range mounts {
 		if strings.HasPrefix(m.ns, "team/") || m.kind != "rec" {
 			continue
 		}
-		for ti, tk := range []string{teamTok, teamRootTok} {
+		for ti, tk := range sweepToks {
 			before := len(rec.Snapshot())
 			r, _ := h.Do("neg", Req{Op: logical.ReadOperation, Path: m.path + "data/probe", Token: tk, NS: m.ns})
 			reached := false
@@ -571,7 +606,7 @@ func runC12(rc *RunCtx) {
 				}
 			}
 			if respHasCanary(r, m.canary) || reached {
-				viol("token-authorised-outside-its-namespace", map[string]any{"target_ns": m.ns}, "a token of team/ (%s) read %s%sdata/probe: canary returned=%v, handler reached=%v", []string{"policy tp", "root policy"}[ti], m.ns, m.path, respHasCanary(r, m.canary), reached)
+				viol("token-authorised-outside-its-namespace", map[string]any{"target_ns": m.ns}, "a token of team/ (%s) read %s%sdata/probe: canary returned=%v, handler reached=%v", sweepNames[ti], m.ns, m.path, respHasCanary(r, m.canary), reached)
 				return
 			}
 		}
